@@ -73,6 +73,7 @@ type Sched struct {
 	StallMaxMs  uint32
 	StallSite   func(site string) bool // optional filter on the task's spawn site
 	Stalls      int
+	StallTime   time.Duration // total simulated time tasks spent stalled
 	Start        time.Time
 
 	hash    uint64
@@ -283,6 +284,7 @@ func Yield() {
 		s.StallBudget--
 		s.Stalls++
 		d := time.Duration(1+s.Tape.Choose(s.StallMaxMs)) * time.Millisecond
+		s.StallTime += d
 		s.Event("stall", t.Site)
 		Sleep(d)
 		return
